@@ -169,10 +169,20 @@ Fixpoint ticks_after_flag (flagged : bool) (tr : trace) : nat :=
   | (TCtl, LSaveCond _) :: r => (if flagged then 1 else 0) + ticks_after_flag flagged r
   | _ :: r => ticks_after_flag flagged r
   end.
-Definition C03_ok (complete : bool) (tr : trace) : bool :=
+(* failures of the control loop itself (save condition, state save): no further tick begins, and launch() raises
+   exactly when such a failure (or a failing final save) happened - a failure of a background thread or an
+   interrupt makes it return normally *)
+Fixpoint c03_mon (cfault : bool) (tr : trace) : bool :=
+  match tr with
+  | [] => true
+  | (TCtl, (LSaveCondRaise | LSaveRaise)) :: r => c03_mon true r
+  | (TCtl, LSaveCond _) :: r => negb cfault && c03_mon cfault r
+  | (TCtl, LLaunchDone raised) :: r => Bool.eqb raised cfault && c03_mon cfault r
+  | _ :: r => c03_mon cfault r
+  end.
+Definition C03_ok (tr : trace) : bool :=
   (* the flag is polled in the tick that is running or in the next one: at most one more tick begins *)
-  (ticks_after_flag false tr <=? 1) &&
-  (if existsb is_fault tr then (if complete then main_exited tr else true) else true).
+  (ticks_after_flag false tr <=? 1) && c03_mon false tr.
 
 (* ---------- C02: every started background thread is joined before launch() ends, a joined thread does
    nothing any more, and the state written after the joins (the final one) comes after all of them ---------- *)
